@@ -721,16 +721,16 @@ Definition data_apply (ops : list pop) (d : doc) : bool * doc :=
    every element of the top-level array whether it is an object, (iii) for an object element its
    members in document order, duplicates included (parse with put_patch), each value being a
    string / other scalar / container built by the embedded JsonParser. *)
-Definition K_OP : list N := [111; 112].
-Definition K_PATH : list N := [112; 97; 116; 104].
-Definition K_FROM : list N := [102; 114; 111; 109].
-Definition K_VALUE : list N := [118; 97; 108; 117; 101].
-Definition S_ADD : list N := [97; 100; 100].
-Definition S_REMOVE : list N := [114; 101; 109; 111; 118; 101].
-Definition S_REPLACE : list N := [114; 101; 112; 108; 97; 99; 101].
-Definition S_MOVE : list N := [109; 111; 118; 101].
-Definition S_COPY : list N := [99; 111; 112; 121].
-Definition S_TEST : list N := [116; 101; 115; 116].
+Definition K_OP : list N := PP_kOpKey.   (* regenerated from JsonPatchParser.cpp *)
+Definition K_PATH : list N := PP_kPathKey.   (* regenerated from JsonPatchParser.cpp *)
+Definition K_FROM : list N := PP_kFromKey.   (* regenerated from JsonPatchParser.cpp *)
+Definition K_VALUE : list N := PP_kValueKey.   (* regenerated from JsonPatchParser.cpp *)
+Definition S_ADD : list N := PP_kAddOp.   (* regenerated from JsonPatchParser.cpp *)
+Definition S_REMOVE : list N := PP_kRemoveOp.   (* regenerated from JsonPatchParser.cpp *)
+Definition S_REPLACE : list N := PP_kReplaceOp.   (* regenerated from JsonPatchParser.cpp *)
+Definition S_MOVE : list N := PP_kMoveOp.   (* regenerated from JsonPatchParser.cpp *)
+Definition S_COPY : list N := PP_kCopyOp.   (* regenerated from JsonPatchParser.cpp *)
+Definition S_TEST : list N := PP_kTestOp.   (* regenerated from JsonPatchParser.cpp *)
 
 (* m_op, m_path, m_from, m_value; reset by OpenObject in state PATCH_LIST *)
 Record pstate := { ps_op : list N; ps_path : option (list N); ps_from : option (list N); ps_value : option jv }.
@@ -816,3 +816,107 @@ Definition patch_apply_text (text : list N) (d : doc) : bool * doc :=
   | PPOk ops => data_apply ops d
   | _ => (false, d)
   end.
+
+(* ------------------------------------------------------------------ JsonParser.cpp as a handler *)
+(* JsonParserInterface is public: the handler can be driven by ANY event sequence, not only the
+   well-nested ones the lexer produces.  State of JsonParser: m_error, m_root, m_key and the three
+   stacks; the array/object stacks always hold the open containers of the container stack in the
+   same order, so one stack of frames models them.  Containers are linked into their parent when
+   they are opened; [h_plug] rebuilds the tree m_root points to. *)
+Inductive hevent :=
+| EBegin | EEnd | EValue (v : jv)            (* String / Number / Bool / Null *)
+| EOpenArr | ECloseArr | EOpenObj | EKey (k : list N) | ECloseObj | ESetError.
+Inductive hattach := AtRoot | AtArr | AtObj (k : list N).
+Inductive hframe := FArr (items : list jv) | FObj (members : list (list N * jv)).
+Record hstate := { h_err : N;                       (* 0 "" | 1 "Internal error" | 2 set by SetError *)
+                   h_root : option jv;              (* m_root when no container is open *)
+                   h_key : list N;
+                   h_stack : list (hframe * hattach) }.
+Definition h_init : hstate := {| h_err := 0; h_root := None; h_key := []; h_stack := [] |}.
+
+Definition frame_value (f : hframe) : jv := match f with FArr l => JArr l | FObj m => JObj m end.
+(* link the value of a closed (or still open) child into its parent frame *)
+Definition attach_to (parent : hframe) (a : hattach) (child : jv) : hframe :=
+  match parent, a with
+  | FArr l, _ => FArr (l ++ [child])
+  | FObj m, AtObj k => FObj (obj_put k child m)
+  | FObj m, _ => FObj m
+  end.
+Fixpoint h_plug (child : jv) (a : hattach) (stack : list (hframe * hattach)) : jv :=
+  match stack with
+  | [] => child
+  | (f, a') :: r => h_plug (frame_value (attach_to f a child)) a' r
+  end.
+(* what m_root.get() points to *)
+Definition h_tree (s : hstate) : option jv :=
+  match h_stack s with
+  | [] => h_root s
+  | (f, a) :: r => Some (h_plug (frame_value f) a r)
+  end.
+
+(* CloseArray / CloseObject with a matching open container: pop it (it is already linked) *)
+Definition h_close (s : hstate) (child : jv) (a : hattach) (r : list (hframe * hattach)) : hstate :=
+  match r with
+  | [] => {| h_err := h_err s; h_root := Some child; h_key := h_key s; h_stack := [] |}
+  | (pf, pa) :: r' =>
+      {| h_err := h_err s; h_root := h_root s; h_key := h_key s; h_stack := (attach_to pf a child, pa) :: r' |}
+  end.
+
+Definition h_step (s : hstate) (e : hevent) : hstate :=
+  match e with
+  | EBegin => h_init
+  | EEnd => {| h_err := h_err s; h_root := h_tree s; h_key := h_key s; h_stack := [] |}
+  | ESetError => {| h_err := 2; h_root := h_root s; h_key := h_key s; h_stack := h_stack s |}
+  | EKey k => {| h_err := h_err s; h_root := h_root s; h_key := k; h_stack := h_stack s |}
+  | EValue v =>
+      match h_stack s with
+      | (FArr l, a) :: r =>
+          {| h_err := h_err s; h_root := h_root s; h_key := h_key s; h_stack := (FArr (l ++ [v]), a) :: r |}
+      | (FObj m, a) :: r =>
+          {| h_err := h_err s; h_root := h_root s; h_key := []; h_stack := (FObj (obj_put (h_key s) v m), a) :: r |}
+      | [] => match h_root s with
+              | None => {| h_err := h_err s; h_root := Some v; h_key := h_key s; h_stack := [] |}
+              | Some _ => {| h_err := 1; h_root := h_root s; h_key := h_key s; h_stack := [] |}
+              end
+      end
+  | EOpenArr | EOpenObj =>
+      let fresh := match e with EOpenArr => FArr [] | _ => FObj [] end in
+      match h_stack s with
+      | [] => {| h_err := h_err s; h_root := None; h_key := h_key s; h_stack := [(fresh, AtRoot)] |}
+      | (FArr l, a) :: r =>
+          {| h_err := h_err s; h_root := h_root s; h_key := h_key s; h_stack := (fresh, AtArr) :: (FArr l, a) :: r |}
+      | (FObj m, a) :: r =>      (* AddArray / AddObject (m_key): replaces a member of that name now *)
+          {| h_err := h_err s; h_root := h_root s; h_key := [];
+             h_stack := (fresh, AtObj (h_key s)) :: (FObj (obj_del (h_key s) m), a) :: r |}
+      end
+  | ECloseArr =>
+      match h_stack s with
+      | (FArr l, a) :: r => h_close s (JArr l) a r
+      | _ => {| h_err := 1; h_root := h_root s; h_key := h_key s; h_stack := h_stack s |}
+      end
+  | ECloseObj =>
+      match h_stack s with
+      | (FObj m, a) :: r => h_close s (JObj m) a r
+      | _ => {| h_err := 1; h_root := h_root s; h_key := h_key s; h_stack := h_stack s |}
+      end
+  end.
+
+(* ------------------------------------------------------------------ message texts (regenerated, Gen.v) *)
+(* PErr code -> the text passed to SetError in JsonLexer.cpp (LEXER_ERRORS is in source order) *)
+Definition lexer_error_text (code : N) : list N :=
+  let at_ (i : nat) := nth i LEXER_ERRORS [] in
+  match code with
+  | 1 => at_ 11%nat | 2 => at_ 0%nat | 3 => at_ 1%nat | 4 => at_ 2%nat | 5 => at_ 3%nat | 6 => at_ 4%nat
+  | 7 => at_ 5%nat | 8 => at_ 6%nat | 9 => at_ 7%nat | 10 => at_ 8%nat | 11 => at_ 10%nat | 12 => at_ 9%nat
+  | _ => []
+  end.
+(* PPBad code -> JsonPatchParser's message *)
+Definition patch_error_text (code : N) : list N :=
+  match code with
+  | 1 => PP_kPatchListError | 2 => PP_kPatchElementError | 3 => PP_kMissingPath
+  | 4 => PP_kMissingValue | 5 => PP_kMissingFrom | 6 => nth 1 PATCHPARSER_ERRORS []
+  | _ => []
+  end.
+(* h_err -> JsonParser's m_error *)
+Definition handler_error_text (code : N) : list N :=
+  match code with 1 => nth 0 PARSER_ERRORS [] | 2 => [120] | _ => [] end.
